@@ -187,7 +187,7 @@ CLAIMS['C09'] = {
              "resolution priority (exhaustive up to 5/6 user items) through the pyxis_verif hook, all module-addition orders, repeated "
              "builds in one process, hook-free runs in fresh processes; all variants must be byte-identical or all fail. Known open "
              "finding: a signature naming a generated <T>Vftable type."),
-    'note': COMMON_NOTE + "whole-attempt monotonicity is proved for descriptions without vftable blocks and for descriptions with vftable blocks that do not mention generated names; for the rest the statement is false on the current tree (open findings); hash seeds are sampled, resolution orders enumerated through the hook; module-addition order is decided on the implementation (through the API) only.",
+    'note': COMMON_NOTE + "whole-attempt monotonicity is proved for descriptions without vftable blocks and for descriptions with vftable blocks that do not mention generated names; for the rest the statement is false on the current tree (open findings); hash seeds are sampled, resolution orders enumerated through the hook; MODULE-ADDITION ORDER: Props/C09ModOrder.lean proves case_module_order_independent / _o2 / _verdict – for any permutation of the module list of a case with distinct module paths (and distinct file names for O3) the verdict is the same and, when accepted, O2 and O3 are equal (no hypothesis on vftables needed: both runs use the same schedule); on the implementation it is checked through the API (files added in every order).",
     'technique': 'Lean 4 proof (abstract confluence of monotone worklists + monotone readers + sort lemmas) + exhaustive schedule enumeration through a hook + differential correspondence',
 }
 CLAIMS['C10'] = {
